@@ -75,7 +75,7 @@ func main() {
 		vevid.LoadReplay(f.Replay, &c)
 		for i := 0; i < 5; i++ {
 			if c.Special != "" {
-				runSpecials(w, rep)
+				runSpecials(w, rep, 0, 1)
 			} else {
 				runCase(w, rep, c)
 			}
@@ -95,9 +95,7 @@ func main() {
 	rep.Bounds["field_types"] = fieldTypes
 	rep.Bounds["ranges"] = rangeNames()
 	rep.Bounds["intervals_ms"] = intervals
-	if f.Shard == 0 {
-		runSpecials(w, rep)
-	}
+	runSpecials(w, rep, f.Shard, f.Shards)
 	var idx, mine int64
 	forEachCase(b, func(c Case) bool {
 		idx++
